@@ -341,6 +341,23 @@ func genC12(r *gen.Rng, tier string, emit func(string)) {
 	for _, p := range boundaryPDUs() {
 		emit("marshal " + pduLine(p))
 	}
+	// the user data header around its 255-octet limit: two elements whose lengths put the second one's identifier,
+	// length octet or data exactly on the boundary (total 244..262), for each PDU type with a short message
+	for a := 244; a <= 256; a++ {
+		for b := 0; b <= 6; b++ {
+			h := pdu.UserDataHeader{0x24: make([]byte, a), 0x25: make([]byte, b)}
+			for k, p := range []interface{}{
+				&pdu.SubmitSM{Header: pdu.Header{Sequence: 9}, ESMClass: pdu.ESMClass{UDHIndicator: true}, Message: pdu.ShortMessage{UDHeader: h}},
+				&pdu.DeliverSM{Header: pdu.Header{Sequence: 9}, ESMClass: pdu.ESMClass{UDHIndicator: true}, Message: pdu.ShortMessage{UDHeader: h, Message: []byte{1}}},
+				&pdu.SubmitMulti{Header: pdu.Header{Sequence: 9}, ESMClass: pdu.ESMClass{UDHIndicator: true}, Message: pdu.ShortMessage{UDHeader: h}},
+				&pdu.ReplaceSM{Header: pdu.Header{Sequence: 9}, Message: pdu.ShortMessage{UDHeader: h}},
+			} {
+				if k == 0 || (a+b)%3 == k%3 {
+					emit("marshal " + pduLine(p))
+				}
+			}
+		}
+	}
 	n := scale(tier, 3000, 60000)
 	ts := canon.Types()
 	for i := 0; i < n; i++ {
